@@ -30,7 +30,8 @@ RULE = ("fonts with 6-14 glyphs drawn from Latin, Cyrillic, Greek, Arabic, Hebre
         "missing-member and rarely overlapping ones); kerning entries at all four precedence levels with zero-valued exceptions, "
         "fractional and negative values; quantisation in {1,5,10}; GDEF mark on/off; languagesystem statements on/off; both "
         "writers, both UFO libraries; every ordered glyph pair x every script tag is evaluated. Non-trivial = the font has a "
-        "group-based entry and a more specific exception, or glyphs of two scripts.")
+        "group-based entry and a more specific exception, or glyphs of two scripts."
+        " kernFeatureWriter.mergeScripts on random bucket dictionaries (chains in shuffled order) against its Gallina transcription; a family of three left-to-right scripts sharing groups; Arabic-script glyphs without a strong bidi class.")
 ASSUMPTIONS = ["the OpenType pair-positioning semantics implemented in harness/otl.py (first applying subtable per lookup)"]
 
 F10_SIG = "kern-rule-mixes-R-and-L-bidi-glyphs"
